@@ -484,6 +484,19 @@ def run_rescale(ctx):
     for i in range(1, n_rdm):
         gone = rng.choice(n_cond, size=int(rng.integers(0, max(1, n_cond - 3))), replace=False)
         a[i, np.isin(iu[0], gone) | np.isin(iu[1], gone)] = np.nan
+    chain = bool(rng.integers(4) == 0)
+    if chain:
+        # a long chain of small partial RDMs (three conditions each, one pair shared with the next) on scales a factor
+        # ten apart: the common scale has to travel along the whole chain, the slowest case for the iteration
+        n_rdm = int(rng.integers(6, 11))
+        n_cond = n_rdm + 2
+        iu = np.triu_indices(n_cond, 1)
+        base = gen.rdm_vectors(rng, 1, n_cond, 'pos')[0]
+        a = np.full((n_rdm, base.size), np.nan)
+        for i in range(n_rdm):
+            cov = np.isin(iu[0], [i, i + 1, i + 2]) & np.isin(iu[1], [i, i + 1, i + 2])
+            a[i, cov] = base[cov] * 10.0 ** i
+        proportional = True
     # overlap graph must be connected through the first (complete) RDM; each partial RDM needs >= 2 entries
     if any((~np.isnan(r)).sum() < 2 for r in a):
         ctx.count('rejected_degenerate')
@@ -491,7 +504,7 @@ def run_rescale(ctx):
     method = gen.pick(rng, ['evidence', 'setsize', 'simple'])
     rd = RDMs(a.copy(), rdm_descriptors={'subj': [f's{i}' for i in range(n_rdm)]},
               pattern_descriptors={'cond': [f'c{i}' for i in range(n_cond)]})
-    sig = dict(method=method, proportional=proportional)
+    sig = dict(method=method, proportional=proportional, chain=chain)
     wit = lambda **k: dict(a=a, method=method, **k)  # noqa: E731
     ok, out = ctx.guarded('rescale', sig, rescale, rd, method, data=wit)
     if not ok:
@@ -524,7 +537,9 @@ def run_rescale(ctx):
         for i in range(n_rdm):
             for j in range(i + 1, n_rdm):
                 both = ~np.isnan(a[i]) & ~np.isnan(a[j])
-                if both.any() and not close(got[i, both], got[j, both], 1e-6, 1e-9):
+                # relative comparison (all values are positive); the chain converges more slowly: measured mismatch
+                # <= 1.3e-8 at threshold 1e-20, against 1e-2 ... 1 when the iteration is cut short
+                if both.any() and np.max(np.abs(got[i, both] / got[j, both] - 1)) > (1e-5 if chain else 2e-6):
                     ctx.fail('rescale', sig, f'proportional partial RDMs {i},{j} not on a common scale after '
                              f'rescaling: maxdiff {maxdiff(got[i, both], got[j, both])}', wit(got=got))
                     return
